@@ -13,7 +13,20 @@ UNITS["C03"] = [
     dict(test="TestC03_Lists", quick=dict(checks=1500, shards=1), thorough=dict(checks=30000, shards=4)),
 ]
 
+UNITS["C05"] = [
+    dict(test="TestC05_Random", quick=dict(checks=10000, shards=2), thorough=dict(checks=150000, shards=8)),
+    dict(test="TestC05_NearValid", quick=dict(checks=5000, shards=2), thorough=dict(checks=100000, shards=8)),
+    dict(test="TestC05_Exhaustive", quick=dict(), thorough=dict()),
+    dict(test="TestC05_DoublePlus", quick=dict(), thorough=dict()),
+]
+
+UNITS["C04"] = [
+    dict(test="TestC04_Agreement", quick=dict(checks=2500, shards=4), thorough=dict(checks=50000, shards=16)),
+]
+
 RULES = {
+    "C04": "one notion of validity: ValidateLicenses / ExtractLicenses / Satisfies agree on which strings are valid and return errors exactly for invalid input",
+    "C05": "the accepted language equals the documented grammar: ValidateLicenses verdict vs a reference recogniser over generated token sequences",
     "C03": "no argument makes ValidateLicenses / Satisfies / ExtractLicenses panic (recover() around every call)",
     "C01": "Satisfies equals the Boolean value of the generated formula under per-term verdicts",
 }
